@@ -390,7 +390,7 @@ func propC0405(t *rapid.T) {
 						ent[i] = 0
 					}
 				}
-				pass := fmt.Sprintf("pw%dX%s", len(k.wallets), rapid.StringMatching(`[a-zA-Z0-9@#$%^&]{4,20}`).Draw(t, "pass"))
+				pass := fmt.Sprintf("pw%dX%s", len(k.wallets), rapid.OneOf(rapid.StringMatching(`[a-zA-Z0-9@#$%^&]{4,20}`), rapid.StringMatching(`[a-zA-Z0-9@#$%^&]{21,36}`)).Draw(t, "pass"))
 				keys, _ := sim.EntropyFor(ent, pass)
 				if keys == nil {
 					t.Skip("no usable entropy")
@@ -448,7 +448,7 @@ func propC0405(t *rapid.T) {
 			}
 			ii := rapid.IntRange(0, len(k.inst)-1).Draw(t, "instance")
 			bits := []int{128, 160, 192, 224, 256}[rapid.IntRange(0, 4).Draw(t, "bits")]
-			pass := fmt.Sprintf("pw%dX%s", len(k.wallets), rapid.StringMatching(`[a-zA-Z0-9@#$%^&]{4,20}`).Draw(t, "pass"))
+			pass := fmt.Sprintf("pw%dX%s", len(k.wallets), rapid.OneOf(rapid.StringMatching(`[a-zA-Z0-9@#$%^&]{4,20}`), rapid.StringMatching(`[a-zA-Z0-9@#$%^&]{21,36}`)).Draw(t, "pass"))
 			remark, odd := genRemark(t)
 			if !odd {
 				remark = "c"
